@@ -134,15 +134,21 @@ def lattice_body(ctx, case):
 
 @st.composite
 def float_case(draw, ctx):
-    m = draw(st.integers(1, ctx.pick(60, 200)))
-    xd = draw(xs(m, allow_int=False))
+    big = draw(st.integers(0, 19)) == 0
+    if big:
+        # long arrays around round sizes (size-dependent code paths), generated cheaply
+        m = draw(st.sampled_from([1000, 2047, 2048, 2049, 4096, 5000]))
+        xd = draw(xs(m, kinds=["unit", "fstep", "motif", "hours", "epoch"], allow_int=False))
+    else:
+        m = draw(st.integers(1, ctx.pick(60, 200)))
+        xd = draw(xs(m, allow_int=False))
     x = xd["x"]
     nq = draw(st.integers(1, 12))
     qs = []
     for _ in range(nq):
         kind = draw(st.sampled_from(["elem", "ulp+", "ulp-", "mid", "between", "below", "above", "dup", "near-mid",
                                      "near-mid"]))
-        i = draw(st.integers(0, m - 1))
+        i = draw(st.one_of(st.sampled_from([0, m - 1]), st.integers(0, m - 1)))
         if kind == "elem":
             v = x[i]
         elif kind == "ulp+":
@@ -180,6 +186,8 @@ def float_body(ctx, case):
     if any(len(s) > 1 for s in closest_sets):
         cls.add("ambiguous-accepted")
     cls.add("x:" + case.get("xkind", "?"))
+    if len(x) >= 1000:
+        cls.add("long-array")
     ctx.record(case, cls, nt)
 
 
